@@ -17,7 +17,7 @@ from typing import List, Iterable
 
 from spil.util.log import info, debug
 from spil.util.exception import SpilException
-from spil.conf import sid_templates, leaf_keys  # type: ignore
+from spil.conf import sid_templates, leaf_keys, sidtype_keytype_sep  # type: ignore
 from spil.sid.core.sid_resolver import sid_to_dicts
 from spil import Sid
 from spil.util.caching import lru_cache as cache
@@ -154,7 +154,8 @@ def expand(sid: str | Sid, do_extrapolate: bool = False) -> List[Sid]:
             continue
         debug(f'.. Checking key "{key}"')
         keys = list(string.Formatter().parse(template))
-        if do_extrapolate or keys[-1][1] == leaf_key:
+        # a leaf type ends in the leaf key of its OWN basetype (basetypes may name their leaf key differently)
+        if do_extrapolate or keys[-1][1] == leaf_keys.get(key.split(sidtype_keytype_sep)[0]):
             count = len(keys) - 1
             current = sid.count("/")
             needed = count - current + 1
@@ -170,7 +171,7 @@ def expand(sid: str | Sid, do_extrapolate: bool = False) -> List[Sid]:
             for __type, data in matching.items():
                 debug(".... found :" + __type)
                 found.append(__type)
-                if data and (do_extrapolate or (list(data)[-1] == leaf_key)):
+                if data and (do_extrapolate or (list(data)[-1] == leaf_keys.get(__type.split(sidtype_keytype_sep)[0]))):
                     if query:
                         new_sid = Sid("{}:{}?{}".format(__type, test, query))
                     else:
